@@ -602,8 +602,10 @@ harness!(ser_constant_reject, unwind = 6, {
 // Every constant kind is quantified over all contents in the single-constant harnesses above; mixed pools and the
 // label table are listed as not covered.
 
-fn framing(mode: u8) {
-    let (c0, c1) = (-559038737i32, 66051i32);
+fn framing(mode: u8, repeated: bool) {
+    // `repeated`: the pool holds the same constant twice — legal in the documented layout (a compiler that does not
+    // intern its constants emits it) and the shape on which a loader that interns while loading drops an entry
+    let (c0, c1) = if repeated { (66051i32, 66051i32) } else { (-559038737i32, 66051i32) };
     let (g0, g1, entry): (u16, u16, u16) = (kani::any(), kani::any(), kani::any());
     let mut reference = Out::new();
     reference.put_u16(2);
@@ -646,7 +648,44 @@ fn framing(mode: u8) {
     forget(prog);
 }
 
-three_modes!(framing, ser_framing_roundtrip, ser_framing_layout, ser_framing_shortwrite, 8);
+three_modes!(|m| framing(m, false), ser_framing_roundtrip, ser_framing_layout, ser_framing_shortwrite, 8);
+three_modes!(|m| framing(m, true), ser_framing_repeated_roundtrip, ser_framing_repeated_layout, ser_framing_repeated_shortwrite, 8);
+
+/// Decode direction of the framing: a buffer in the documented layout with two integer constants (payload symbolic,
+/// so equal and different constants are both covered), two globals and an entry loads as the program it denotes.
+harness!(ser_framing_decode, unwind = 8, {
+    let mut buf = [0u8; 20];
+    buf[0] = 2; // u16 constant count
+    buf[2] = K_INT;
+    buf[7] = K_INT;
+    let mut i = 3;
+    while i < 7 { buf[i] = kani::any(); buf[i + 5] = kani::any(); i += 1; }
+    buf[12] = 2; // u16 global count
+    i = 14;
+    while i < 20 { buf[i] = kani::any(); i += 1; }
+    let mut r = In::new(&buf);
+    r.pos = 3;
+    let c0 = r.get_u32() as i32;
+    r.pos = 8;
+    let c1 = r.get_u32() as i32;
+    r.pos = 14;
+    let (g0, g1, entry) = (r.get_u16(), r.get_u16(), r.get_u16());
+    let mut rd: &[u8] = &buf[..];
+    let got = Program::from_bytes(&mut rd);
+    witness!(c0 == c1, "W: repeated constant decoded");
+    assert!(rd.is_empty(), "C04: bytes left over");
+    let same = match (got.constant_pool.get(&ConstantPoolIndex::new(0)), got.constant_pool.get(&ConstantPoolIndex::new(1))) {
+        (Ok(ProgramObject::Integer(a)), Ok(ProgramObject::Integer(b))) => *a == c0 && *b == c1,
+        _ => false,
+    };
+    assert!(same && got.constant_pool.get(&ConstantPoolIndex::new(2)).is_err(), "C04: a file of the documented layout loaded with a different constant pool");
+    {
+        let mut gs = got.globals.iter();
+        assert!(gs.next() == Some(ConstantPoolIndex::new(g0)) && gs.next() == Some(ConstantPoolIndex::new(g1)) && gs.next().is_none(), "C04: globals loaded differently");
+    }
+    assert!(got.entry.get().map(|e| e == ConstantPoolIndex::new(entry)).unwrap_or(false), "C04: entry loaded differently");
+    forget(got);
+});
 
 // the harness-side validity predicate for strings is exactly std's
 harness!(ser_utf8_predicate_exact, unwind = 8, {
